@@ -72,7 +72,7 @@ def run(ctx):
                 per_code[code + str(dict(ps))] = "digit cells could not be read off: code skipped"
                 continue
             trees = [f() for f in speech_run.FIXED] + [speech_run.operand_positions(rng, rng.randrange(1, 4)) for _ in range(n_random)]
-            lits = [speech_run.plant(rng, t, ".") for t in trees]
+            lits = [speech_run.plant(rng, t, ".", integers=0.4) for t in trees]
             xmls = [mml.to_xml(mml.math(t), ns_decl=False) for t in trees]
             reqs = []
             for x in xmls:
@@ -98,6 +98,10 @@ def run(ctx):
                 for l in set(ls):
                     run_ = l if code in TEXT else "".join(cells[ch] for ch in l)
                     want, got = ls.count(l), out.count(run_)
+                    if got < want and code in ("CMU", "Vietnam") and l.isdigit():
+                        # drop numbers: an integer denominator of a numeric fraction is written with the digits lowered one row (by design)
+                        low = dict(zip("⠁⠃⠉⠙⠑⠋⠛⠓⠊⠚", "⠂⠆⠒⠲⠢⠖⠶⠦⠔⠴"))
+                        got += out.count("".join(low[cells[ch]] for ch in l))
                     if got != want:
                         oracle_fail.append({"why": "literal brailled %d times instead of %d" % (got, want), "literal": l, "cells": run_, "code": code, "prefs": dict(ps), "xml": x, "braille": out, "lines": lines})
                 if code in TEXT and hk.get("r") == "ok":
